@@ -439,6 +439,7 @@ def drive_with(case, work):
         with Workspace(path, mode=case["mode"]) as ws:
             out["handle0"] = iotrace.handle_state(ws)
             out["ctor_mode"] = ws._mode  # noqa: SLF001
+            out["ncat"] = iodrive.n_concatenators(ws)
             for i, op in enumerate(case["ops"]):
                 if i >= case["k"]:
                     break
@@ -477,7 +478,7 @@ def drive_with(case, work):
     finally:
         if started:
             with_trace.__exit__(None, None, None)
-            out["exit_calls"] = [[c["fn"], c["mode"], c["file"], c["line"], c["handle"], c["out"]] for c in with_trace.calls if c["ws"] == id(ws)]
+            out["exit_calls"] = [[c["fn"], c["mode"], c["file"], c["line"], c["handle"], c["out"], c["repack"]] for c in with_trace.calls if c["ws"] == id(ws)]
             out["exit_entries"] = [[e["fn"], e["hmode"], e["out"]] for e in with_trace.entries
                                    if os.path.realpath(e["hfile"]) == os.path.realpath(path)]
         else:
@@ -558,7 +559,7 @@ def drive_with(case, work):
 
 
 # ----------------------------------------------------------------------------- Coq case terms
-PY_FAIL = '{| c_fn := "<python>"; c_writer := false; c_req := R; c_fails := true |}'
+PY_FAIL = '{| c_fn := "<python>"; c_writer := false; c_req := R; c_fails := true; c_repack := false |}'
 
 
 def _op_term_with(op, rec):
@@ -619,8 +620,9 @@ def case_term(case, obs):
             oe = {"ReadOnly": "(Some EReadOnly)", "Closed": "(Some EClosed)"}.get(exc, "(Some EFail)")
         if "handle0" not in obs:
             return "false"
-        return ("agree_with %s %s %s %s %s %s %s %s && sites_ok IOT %s"
-                % (K.c_handle(obs["handle0"]), K.MODES[obs["ctor_mode"]], cbool(bool(obs.get("fault_fired"))), clist(ops), cnat(case["k"]),
+        return ("agree_with %s %s %s %s %s %s %s %s %s && sites_ok IOT %s"
+                % (K.c_handle(obs["handle0"]), K.MODES[obs["ctor_mode"]], cbool(bool(obs.get("fault_fired"))), cnat(obs.get("ncat", 1)),
+                   clist(ops), cnat(case["k"]),
                    oe, K.c_handle(obs["handle_after"]), K.c_log(log), K.c_sites(sites)))
     if case["kind"] == "after_close":
         ops, outs, hs, sites = [], [], [], []
@@ -629,11 +631,11 @@ def case_term(case, obs):
             outs.append(K.c_err(g["exc"], g["calls"]))
             hs.append(K.c_handle(g["handle_after"]))
             sites += g["calls"]
-        return ("agree_run Closed %s false %s %s %s [] && sites_ok IOT %s"
+        return ("agree_run Closed %s false 1 %s %s %s [] && sites_ok IOT %s"
                 % (K.MODES[case["mode"]], clist(ops), clist(outs), clist(hs), K.c_sites(sites)))
     cl = obs["closed"]
     op = K.op_term(dict(case, op="entry"), cl)
-    return ("agree_run Closed RW false [%s] [%s] [%s] %s && sites_ok IOT %s"
+    return ("agree_run Closed RW false 1 [%s] [%s] [%s] %s && sites_ok IOT %s"
             % (op, K.c_err(cl["exc"], cl["calls"]), K.c_handle(cl["handle_after"]), K.c_log(cl["entries"]), K.c_sites(cl["calls"])))
 
 
